@@ -28,11 +28,13 @@ VARIABLES ci,           \* check_interval of this endpoint
           sinceReal,    \* ghost: time since the backend last saw a real probe (saturating)
           hbF, hbOpen, hbSF, hbP, hbSP, hbRes, hbAct, hbCons, hbScn,   \* health breaker
           act, real,    \* last action; did the last Round reach the backend
+          pend,         \* a check whose probe is done but whose result is not stored yet ("none" or a record)
+          slowSeen,     \* history: such an overlapped store happened (schedule arithmetic is then not judged)
           scn
 
 hbvars == <<hbF, hbOpen, hbSF, hbP, hbSP, hbRes, hbAct, hbCons, hbScn>>
 core == <<ci, status, cf, mult, wait, lastIv, backend, hbF, hbOpen, hbSF, hbP, hbSP>>
-vars == <<ci, status, cf, mult, wait, lastIv, backend, cb, sinceReal, hbvars, act, real, scn>>
+vars == <<ci, status, cf, mult, wait, lastIv, backend, cb, sinceReal, hbvars, act, real, pend, slowSeen, scn>>
 
 HB == INSTANCE HealthBreaker WITH
         Threshold <- 3, Timeout <- 30, ProbeWindow <- 1, Ticks <- {}, MaxLen <- 0,
@@ -53,17 +55,18 @@ FailMult(m)     == IF m <= 1 THEN 2 ELSE Min(m * 2, MaxMult)
 
 Init == /\ ci \in CIs /\ status = "unknown" /\ cf = 0 /\ mult = 1 /\ wait = 0 /\ lastIv = 0
         /\ backend \in Outcomes /\ cb = 0 /\ sinceReal = 0
-        /\ HB!Init /\ act = "Init" /\ real = FALSE
+        /\ HB!Init /\ act = "Init" /\ real = FALSE /\ pend = [on |-> FALSE, st |-> "none", from |-> "none", age |-> 0] /\ slowSeen = FALSE
         /\ scn = <<<<"Start", ci, backend>>>>
 
 SetBackend(o) == /\ act' = "SetBackend" /\ backend' = o /\ o # backend
-                 /\ UNCHANGED <<ci, status, cf, mult, wait, lastIv, cb, sinceReal, hbvars, real>>
+                 /\ UNCHANGED <<ci, status, cf, mult, wait, lastIv, cb, sinceReal, hbvars, real, pend, slowSeen>>
 
 Tick(d) == /\ act' = "Tick"
            /\ wait' = IF wait > d THEN wait - d ELSE 0
            /\ sinceReal' = Min(sinceReal + d, SatReal)
            /\ HB!Tick(d) /\ UNCHANGED <<hbScn>>
-           /\ UNCHANGED <<ci, status, cf, mult, lastIv, backend, cb, real>>
+           /\ pend' = IF pend.on THEN [pend EXCEPT !.age = IF @ + d > MaxBackoff THEN MaxBackoff + 1 ELSE @ + d] ELSE pend
+           /\ UNCHANGED <<ci, status, cf, mult, lastIv, backend, cb, real, slowSeen>>
 
 StoreFailure(newStatus) ==
     /\ status' = newStatus
@@ -73,12 +76,12 @@ StoreFailure(newStatus) ==
 
 \* one scheduler round (performHealthChecks): nothing if not due, else one check
 RoundSkip == /\ act' = "Round" /\ wait > 0 /\ real' = FALSE
-             /\ UNCHANGED <<ci, status, cf, mult, wait, lastIv, backend, cb, sinceReal, hbvars>>
+             /\ UNCHANGED <<ci, status, cf, mult, wait, lastIv, backend, cb, sinceReal, hbvars, pend, slowSeen>>
 
 RoundSynthetic ==          \* breaker open: synthetic offline result, NOT recorded in the breaker
     /\ act' = "Round" /\ wait = 0 /\ ~HB!Admits /\ real' = FALSE
     /\ StoreFailure("offline")
-    /\ UNCHANGED <<ci, backend, cb, sinceReal, hbvars>>
+    /\ UNCHANGED <<ci, backend, cb, sinceReal, hbvars, pend, slowSeen>>
 
 RoundReal ==
     /\ act' = "Round" /\ wait = 0 /\ HB!Admits /\ real' = TRUE
@@ -89,31 +92,64 @@ RoundReal ==
             /\ HB!Succ
        ELSE /\ StoreFailure(Classify(backend)) /\ UNCHANGED cb
             /\ HB!Fail
-    /\ UNCHANGED <<ci, backend, hbScn>>
+    /\ UNCHANGED <<ci, backend, hbScn, pend, slowSeen>>
 
 Round == RoundSkip \/ RoundSynthetic \/ RoundReal
 
 \* the proxy saw a connection-level failure on this endpoint (second writer)
 ProxyFailure == /\ act' = "ProxyFailure" /\ real' = FALSE
                 /\ StoreFailure("offline")
-                /\ UNCHANGED <<ci, backend, cb, sinceReal, hbvars>>
+                /\ UNCHANGED <<ci, backend, cb, sinceReal, hbvars, pend, slowSeen>>
+
+\* A check that overlaps other writers: its probe (and breaker bookkeeping) happens at SlowBegin, its
+\* read-copy-update store at SlowEnd, with arbitrary other steps in between. The properties fix the stored
+\* status (the check that COMPLETES last wins) and the recovery callback (judged against the status the
+\* store actually replaces); the backoff arithmetic of an overlapped store is not something they state.
+SlowBegin ==
+    /\ act' = "SlowBegin" /\ ~pend.on /\ wait = 0
+    /\ IF HB!Admits
+       THEN /\ real' = TRUE /\ sinceReal' = 0
+            /\ pend' = [on |-> TRUE, st |-> Classify(backend), from |-> status, age |-> 0]
+            /\ IF backend = "ok" THEN HB!Succ ELSE HB!Fail
+            /\ UNCHANGED hbScn
+       ELSE /\ real' = FALSE /\ pend' = [on |-> TRUE, st |-> "offline", from |-> status, age |-> 0] /\ UNCHANGED <<sinceReal, hbvars>>
+    /\ UNCHANGED <<ci, status, cf, mult, wait, lastIv, backend, cb, slowSeen>>
+\* `against` = the status the recovery callback is judged against: the property says the stored transition,
+\* i.e. the status this store replaces (status); the code's read-copy-update uses its snapshot (pend.from)
+SlowEndJudged(cf2, mult2, iv2, against) ==
+    /\ act' = "SlowEnd" /\ pend.on
+    /\ status' = pend.st
+    /\ cb' = IF pend.st = "healthy" /\ against \notin {"healthy", "unknown"} THEN CbInc(cb) ELSE cb
+    \* the next check is due iv2 after the moment THIS check started, which was pend.age ago
+    /\ cf' = cf2 /\ mult' = mult2 /\ lastIv' = iv2 /\ wait' = IF iv2 > pend.age THEN iv2 - pend.age ELSE 0
+    /\ pend' = [on |-> FALSE, st |-> "none", from |-> "none", age |-> 0] /\ slowSeen' = TRUE
+    /\ UNCHANGED <<ci, backend, sinceReal, hbvars, real>>
+SlowEnd(cf2, mult2, iv2) == SlowEndJudged(cf2, mult2, iv2, status)
 
 Log(tok) == scn' = Append(scn, tok)
 Next == \/ \E o \in Outcomes : SetBackend(o) /\ Log(<<"SetBackend", o>>)
         \/ \E d \in Ticks : Tick(d) /\ Log(<<"Tick", d>>)
         \/ Round /\ Log("Round")
         \/ ProxyFailure /\ Log("ProxyFailure")
+        \/ SlowBegin /\ Log("SlowBegin")
+        \/ /\ pend.on
+           /\ IF pend.st = "healthy" THEN SlowEnd(0, 1, ci)
+                                    ELSE SlowEnd(Min(cf + 1, CapCF), FailMult(mult), FailInterval(mult))
+           /\ Log("SlowEnd")
 Spec == Init /\ [][Next]_vars
 
 -----------------------------------------------------------------------------
 (* Property C07 *)
 \* (a) healthy exactly when the latest check reached the endpoint and got 2xx
-Classification == [][(act' = "Round" /\ wait = 0) =>
+Classification == [][(act' = "Round" /\ wait = 0 /\ ~pend.on) =>
                         IF real' THEN status' = Classify(backend) ELSE status' = "offline"]_vars
-HealthyMeansProbedOK == [][(status' = "healthy" /\ status # "healthy") => (real' /\ backend = "ok")]_vars
+HealthyMeansProbedOK == [][(status' = "healthy" /\ status # "healthy") =>
+                             \/ (real' /\ backend = "ok")
+                             \/ (act' = "SlowEnd" /\ pend.st = "healthy")]_vars      \* its probe (at SlowBegin) got the 2xx
 \* (b) the delay after f consecutive failures is ci x 1,2,4,8,12,12,... capped; ci after a success
 Mul(f) == CASE f = 1 -> 1 [] f = 2 -> 2 [] f = 3 -> 4 [] f = 4 -> 8 [] OTHER -> 12
-Schedule == /\ (status = "healthy" => lastIv = ci /\ cf = 0 /\ mult = 1)
+Schedule == slowSeen \/
+            /\ (status = "healthy" => lastIv = ci /\ cf = 0 /\ mult = 1)
             /\ (cf >= 1 /\ cf < CapCF => lastIv = Min(ci * Mul(cf), MaxBackoff))
             /\ wait <= MaxBackoff
 \* (c) real probing at bounded intervals: a due round is real whenever the breaker admits, synthetic
